@@ -80,6 +80,8 @@ type xlFunc struct {
 	storeOK map[types.Object]bool
 	globals map[types.Object]string // package-level table -> name of its Lean definition
 	gdefs   []string
+	closures map[types.Object]string // local `f := func(…) bool { return e }` -> name of its Lean definition
+	lambda   map[types.Object]string // parameters of the closure being translated -> bound variable
 }
 
 // xlSrc is one way a variable gets a value (for the interval analysis)
@@ -135,7 +137,8 @@ func xlateFunc(x *X, fset *token.FileSet, info *types.Info, fd *ast.FuncDecl, le
 	outp := &res
 	t := &xlFunc{x: x, fset: fset, info: info, fd: fd, name: leanName, byObj: map[types.Object]string{}, byRecv: map[string]string{},
 		used: map[string]bool{}, fuel: fuel, keep: keep, stubRho: rho, assigns: map[types.Object][]ast.Expr{}, rngBusy: map[types.Object]bool{}, declKind: "p", declNo: map[string]int{},
-		rel: rel, file: file, srcs: map[types.Object][]xlSrc{}, varRng: map[types.Object]ival{}, storeOK: map[types.Object]bool{}, globals: map[types.Object]string{}}
+		rel: rel, file: file, srcs: map[types.Object][]xlSrc{}, varRng: map[types.Object]ival{}, storeOK: map[types.Object]bool{}, globals: map[types.Object]string{},
+		closures: map[types.Object]string{}, lambda: map[types.Object]string{}}
 	var out string
 	defer func() {
 		if r := recover(); r != nil {
@@ -462,6 +465,12 @@ func (t *xlFunc) expr(e ast.Expr) xlExpr {
 		if obj == nil {
 			obj = t.info.Defs[n]
 		}
+		if v, ok := t.lambda[obj]; ok {
+			return xlExpr{nil, v}
+		}
+		if len(t.lambda) > 0 {
+			t.bad(n, "the closure uses %s, which is not one of its parameters", n.Name)
+		}
 		if f, ok := t.byObj[obj]; ok {
 			return xlExpr{nil, "s." + f}
 		}
@@ -475,18 +484,26 @@ func (t *xlFunc) expr(e ast.Expr) xlExpr {
 		}
 		t.bad(n, "selector %s outside the subset", t.x.src(n))
 	case *ast.IndexExpr:
-		if t.kind(n.X) != "Bytes" {
+		if t.kind(n.X) != "Bytes" && t.kind(n.X) != "(List Int)" {
 			t.bad(n, "index into %s", t.kind(n.X))
 		}
 		a, i := t.expr(n.X), t.expr(n.Index)
 		t.intRange(n.Index)
 		v := t.tmp()
 		pre := append(append([]string{}, a.pre...), i.pre...)
-		pre = append(pre, fmt.Sprintf("let %s ← idx %s %s", v, paren(a.term), paren(t.asInt(n.Index, i.term))))
+		f := "idx"
+		if t.kind(n.X) != "Bytes" {
+			f = "lidx"
+		}
+		pre = append(pre, fmt.Sprintf("let %s ← %s %s %s", v, f, paren(a.term), paren(t.asInt(n.Index, i.term))))
 		return xlExpr{pre, v}
 	case *ast.SliceExpr:
-		if n.Slice3 || t.kind(n.X) != "Bytes" {
+		if n.Slice3 || (t.kind(n.X) != "Bytes" && t.kind(n.X) != "(List Int)") {
 			t.bad(n, "slice expression outside the subset")
+		}
+		lp := ""
+		if t.kind(n.X) != "Bytes" {
+			lp = "l" // the list versions (lslice, lsliceFrom, lsliceTo) of the runtime
 		}
 		a := t.expr(n.X)
 		pre := append([]string{}, a.pre...)
@@ -508,11 +525,11 @@ func (t *xlFunc) expr(e ast.Expr) xlExpr {
 		case lo == "" && hi == "":
 			return a
 		case hi == "":
-			pre = append(pre, fmt.Sprintf("let %s ← sliceFrom %s %s", v, paren(a.term), lo))
+			pre = append(pre, fmt.Sprintf("let %s ← %ssliceFrom %s %s", v, lp, paren(a.term), lo))
 		case lo == "":
-			pre = append(pre, fmt.Sprintf("let %s ← sliceTo %s %s", v, paren(a.term), hi))
+			pre = append(pre, fmt.Sprintf("let %s ← %ssliceTo %s %s", v, lp, paren(a.term), hi))
 		default:
-			pre = append(pre, fmt.Sprintf("let %s ← slice %s %s %s", v, paren(a.term), lo, hi))
+			pre = append(pre, fmt.Sprintf("let %s ← %sslice %s %s %s", v, lp, paren(a.term), lo, hi))
 		}
 		return xlExpr{pre, v}
 	case *ast.UnaryExpr:
@@ -550,6 +567,17 @@ func (t *xlFunc) asInt(e ast.Expr, term string) string {
 }
 
 func (t *xlFunc) binary(n *ast.BinaryExpr) xlExpr {
+	if n.Op == token.EQL || n.Op == token.NEQ {
+		for _, pr := range [][2]ast.Expr{{n.X, n.Y}, {n.Y, n.X}} {
+			if x, ok := t.runesVsConst(pr[0], pr[1]); ok {
+				op := " == "
+				if n.Op == token.NEQ {
+					op = " != "
+				}
+				return xlExpr{x.pre, paren(x.term) + op + t.runesOfConst(pr[1])}
+			}
+		}
+	}
 	l, r := t.expr(n.X), t.expr(n.Y)
 	switch n.Op {
 	case token.LAND, token.LOR:
@@ -689,11 +717,24 @@ func (t *xlFunc) call(n *ast.CallExpr) xlExpr {
 	if id, ok := n.Fun.(*ast.Ident); ok {
 		switch id.Name {
 		case "len":
-			if t.kind(n.Args[0]) != "Bytes" {
+			if t.kind(n.Args[0]) != "Bytes" && t.kind(n.Args[0]) != "(List Int)" {
 				t.bad(n, "len of %s", t.kind(n.Args[0]))
 			}
 			a := t.expr(n.Args[0])
+			if t.kind(n.Args[0]) != "Bytes" {
+				return xlExpr{a.pre, "llen " + paren(a.term)}
+			}
 			return xlExpr{a.pre, "len " + paren(a.term)}
+		}
+		if fn, ok := t.closures[t.objOf(id)]; ok {
+			pre := []string{}
+			term := fn
+			for _, a := range n.Args {
+				e := t.expr(a)
+				pre = append(pre, e.pre...)
+				term += " " + paren(e.term)
+			}
+			return xlExpr{pre, term}
 		}
 	}
 	if pk, name := t.pkgCall(n); pk == "strings" && (name == "LastIndexByte" || name == "IndexByte") && len(n.Args) == 2 {
@@ -1317,14 +1358,15 @@ func (t *xlFunc) stmt(s ast.Stmt, d int) string {
 	case *ast.ExprStmt:
 		return t.exprStmt(n, d)
 	case *ast.SwitchStmt:
-		if n.Tag == nil {
-			t.bad(n, "switch without tag")
-		}
 		var pre string
 		if n.Init != nil {
 			pre = t.stmt(n.Init, d)
 		}
-		tag := t.expr(n.Tag)
+		tagless := n.Tag == nil
+		tag := xlExpr{}
+		if !tagless {
+			tag = t.expr(n.Tag)
+		}
 		// if-chain on equality, default last
 		var def *ast.CaseClause
 		type arm struct {
@@ -1350,7 +1392,11 @@ func (t *xlFunc) stmt(s ast.Stmt, d int) string {
 				if len(ve.pre) > 0 {
 					t.bad(v, "case expression with effects")
 				}
-				conds = append(conds, paren(tag.term)+" == "+paren(ve.term))
+				if tagless { // `switch { case cond: … }`: the first true condition
+					conds = append(conds, paren(ve.term))
+				} else {
+					conds = append(conds, paren(tag.term)+" == "+paren(ve.term))
+				}
 			}
 			arms = append(arms, arm{xlExpr{pre2, strings.Join(conds, " || ")}, t.block(cc.Body, d+len(arms)+2)})
 		}
@@ -1478,6 +1524,11 @@ func (t *xlFunc) assign(n *ast.AssignStmt, d int) string {
 	}
 	var stores []store
 	seen := map[string]bool{}
+	if len(n.Rhs) == 1 {
+		if fl, ok := n.Rhs[0].(*ast.FuncLit); ok {
+			return t.closure(n, fl, d)
+		}
+	}
 	for i, r := range n.Rhs {
 		e := t.expr(r)
 		pre = append(pre, e.pre...)
@@ -2138,4 +2189,113 @@ func (t *xlFunc) storable(id *ast.Ident) {
 		return true
 	})
 	t.storeOK[obj] = true
+}
+
+// ---------------------------------------------------------------------------------------------------------
+// closures that are pure predicates, []rune against a string constant
+
+// closure: `f := func(a T, …) R { return e }` where e mentions nothing but the parameters and constants, and f is
+// never assigned again: a Lean function of its own; calls `f(x)` apply it.
+func (t *xlFunc) closure(n *ast.AssignStmt, fl *ast.FuncLit, d int) string {
+	id, ok := n.Lhs[0].(*ast.Ident)
+	if !ok || n.Tok != token.DEFINE {
+		t.bad(n, "function literal assigned to something that is not a new variable")
+	}
+	obj := t.info.Defs[id]
+	reassigned := false
+	ast.Inspect(t.fd.Body, func(m ast.Node) bool {
+		if as, ok := m.(*ast.AssignStmt); ok && as != n {
+			for _, l := range as.Lhs {
+				if li, ok := l.(*ast.Ident); ok && t.objOf(li) == obj {
+					reassigned = true
+				}
+			}
+		}
+		if u, ok := m.(*ast.UnaryExpr); ok && u.Op == token.AND {
+			if li, ok := u.X.(*ast.Ident); ok && t.objOf(li) == obj {
+				reassigned = true
+			}
+		}
+		return true
+	})
+	if reassigned {
+		t.bad(n, "the closure %s is assigned again", id.Name)
+	}
+	if len(fl.Body.List) != 1 || fl.Type.Results == nil || len(fl.Type.Results.List) != 1 {
+		t.bad(fl, "closure %s is not a single `return e` with one result", id.Name)
+	}
+	ret, ok := fl.Body.List[0].(*ast.ReturnStmt)
+	if !ok || len(ret.Results) != 1 {
+		t.bad(fl, "closure %s is not a single `return e`", id.Name)
+	}
+	var binders, types_ []string
+	for _, p := range fl.Type.Params.List {
+		lt, _ := t.leanType(t.info.Types[p.Type].Type)
+		for _, pn := range p.Names {
+			v := fmt.Sprintf("a%d", len(binders))
+			t.lambda[t.info.Defs[pn]] = v
+			binders = append(binders, v)
+			types_ = append(types_, lt)
+		}
+	}
+	if len(binders) == 0 {
+		t.bad(fl, "closure without parameters")
+	}
+	rt, _ := t.leanType(t.info.Types[fl.Type.Results.List[0].Type].Type)
+	e := t.expr(ret.Results[0])
+	t.lambda = map[types.Object]string{}
+	if len(e.pre) > 0 {
+		t.bad(fl, "closure %s can panic: outside the subset", id.Name)
+	}
+	name := fmt.Sprintf("fn%d", len(t.closures))
+	t.closures[obj] = name
+	t.gdefs = append(t.gdefs, fmt.Sprintf("/-- the closure `%s` of `%s` (mentions only its parameters) -/\ndef %s : %s → %s := fun %s => %s",
+		id.Name, t.goName(), name, strings.Join(types_, " → "), rt, strings.Join(binders, " "), e.term))
+	return ""
+}
+
+// runesVsConst: is `a` the conversion string(x) of a []rune x and `c` a string constant that is valid UTF-8 without
+// U+FFFD? Then string(x) == c exactly when x is the rune list of c (an invalid rune encodes as U+FFFD, which c does
+// not contain).
+func (t *xlFunc) runesVsConst(a, c ast.Expr) (xlExpr, bool) {
+	call, ok := a.(*ast.CallExpr)
+	if !ok || len(call.Args) != 1 {
+		return xlExpr{}, false
+	}
+	tv, ok := t.info.Types[call.Fun]
+	if !ok || !tv.IsType() {
+		return xlExpr{}, false
+	}
+	if b, ok := tv.Type.Underlying().(*types.Basic); !ok || b.Info()&types.IsString == 0 {
+		return xlExpr{}, false
+	}
+	at := t.typeOf(call.Args[0])
+	if at == nil {
+		return xlExpr{}, false
+	}
+	sl, ok := at.Underlying().(*types.Slice)
+	if !ok {
+		return xlExpr{}, false
+	}
+	if eb, ok := sl.Elem().Underlying().(*types.Basic); !ok || eb.Kind() != types.Int32 {
+		return xlExpr{}, false
+	}
+	cv := t.info.Types[c]
+	if cv.Value == nil || cv.Value.Kind() != constant.String {
+		t.bad(a, "string([]rune) compared with something that is not a constant")
+	}
+	for _, r := range constant.StringVal(cv.Value) {
+		if r == 0xFFFD {
+			t.bad(c, "string constant with U+FFFD (or invalid UTF-8) compared with string([]rune)")
+		}
+	}
+	return t.expr(call.Args[0]), true
+}
+
+func (t *xlFunc) runesOfConst(c ast.Expr) string {
+	var parts []string
+	for _, r := range constant.StringVal(t.info.Types[c].Value) {
+		parts = append(parts, fmt.Sprint(int(r)))
+	}
+	return "([" + strings.Join(parts, ", ") + "] : List Int)"
 }
